@@ -560,6 +560,12 @@ def core_matrix():
         mk('simpleconvolution', '-width=30 -height=30', timing=True, gpus='1,2', um=True), mk('pagerank', '-node=65 -sparsity=0.5 -iterations=1', timing=True, gpus='1,2', um=True),
         mk('simpleconvolution', '-width=64 -height=64 -mask-size=1', gpus='1,2,3'),
     ]
+    core += [  # uneven discrete multi-GPU splits: more work-groups (or work-group columns) than GPUs and not divisible by
+               # the GPU count, so the last GPUs get a shorter share (the per-GPU offset must come from the rounded-up share)
+        mk('matrixtranspose', '-width=192', gpus='1,2'), mk('matrixtranspose', '-width=320', gpus='1,2,3'),
+        mk('matrixtranspose', '-width=320', gpus='1,2,3,4'), mk('relu', '-length=320', gpus='1,2'),
+        mk('vectoradd', '-width=320 -height=1', gpus='1,2,3'), mk('fir', '-length=320', gpus='1,2,3'),
+    ]
     core += [  # tall and wide shapes whose larger dimension crosses a 4 KiB page of its vector; iteration counts 0, = size, > size
         mk('atax', '-x=1040 -y=1024'), mk('atax', '-x=1024 -y=1040', arch='cdna3'), mk('bicg', '-x=1040 -y=1024'), mk('bicg', '-x=1024 -y=1040'),
         mk('matrixmultiplication', '-x=32 -y=1040 -z=32'), mk('matrixmultiplication', '-x=1056 -y=16 -z=32'), mk('matrixmultiplication', '-x=32 -y=16 -z=1056'),
